@@ -118,6 +118,7 @@ Inductive tcall :=
 | TBinTS (o : binop) (t1 : list Qc) (c1 : Qc) (x : Qc)
 | TBinST (o : binop) (x : Qc) (t1 : list Qc) (c1 : Qc)
 | TNeg (t1 : list Qc) (c1 : Qc) | TPos (t1 : list Qc) (c1 : Qc)
+| TEq (t1 : list Qc) (c1 : Qc) (t2 : list Qc) (c2 : Qc)      (* __eq__ / __ne__: 1 = equal *)
 | TNorm (t1 : list Qc) (c1 : Qc)
 | THarm (t1 : list Qc) (c1 : Qc) (h : list (nat * Qc)).
 Inductive tobs := ORes (l : list Qc) (e : ending) | OVal (q : Qc) | OTbl (t : list Qc) (c : Qc) | OErr (e : string).
@@ -144,6 +145,7 @@ Definition run_tcall (c : tcall) : tobs :=
   | TBinTS o t1 c1 x => tres_obs (table_binop_ts o t1 c1 x)
   | TBinST o x t1 c1 => tres_obs (table_binop_st o x t1 c1)
   | TNeg t1 c1 => tres_obs (table_neg t1 c1)
+  | TEq t1 c1 t2 c2 => OVal (if Qc_eqb c1 c2 && list_eqb Qc_eqb t1 t2 then 1 else 0)
   | TPos t1 c1 => tres_obs (table_pos t1 c1)
   | TNorm t1 c1 => tres_obs (table_normalize t1 c1)
   | THarm t1 c1 h => tres_obs (table_harmonize t1 c1 h)
@@ -184,6 +186,7 @@ Definition holds_table (c : t_case) : bool :=
       Qc_eqb cr c1 && (length r =? length t1)%nat && pointwise (fun i => apply_binop o (nth i t1 0) x) 0 r
   | TBinST o x t1 c1, OTbl r cr =>
       Qc_eqb cr c1 && (length r =? length t1)%nat && pointwise (fun i => apply_binop o x (nth i t1 0)) 0 r
+  | TEq t1 c1 t2 c2, OVal v => Qc_eqb v (if Qc_eqb c1 c2 && list_eqb Qc_eqb t1 t2 then 1 else 0)
   | TNeg t1 c1, OTbl r cr =>
       Qc_eqb cr c1 && (length r =? length t1)%nat && pointwise (fun i => Some (- nth i t1 0)) 0 r
   | TPos t1 c1, OTbl r cr => Qc_eqb cr c1 && list_eqb Qc_eqb r t1
@@ -237,3 +240,22 @@ Definition holds_osc (c : o_case) : bool :=
          | _ => Qc_is0 (ks_den delay alpha 0)
          end
   end.
+
+(* ------------------------------------------------------------------ histories *)
+(* several calls made in one process on shared / mutated objects: every call is recorded with the CURRENT
+   public contents of its arguments and must satisfy the per-call checkers *)
+Inductive any_case :=
+| AMc (c : mc_case) | ADur (c : d_case) | ATab (c : t_case) | ARs (c : r_case) | AOsc (c : o_case)
+| ABad (what : string).      (* an observation the harness could not classify: never accepted *)
+Definition corr_any (a : any_case) : bool :=
+  match a with
+  | AMc c => corr_mc c | ADur c => corr_dur c | ATab c => corr_table c | ARs c => corr_resample c
+  | AOsc c => corr_osc c | ABad _ => false
+  end.
+Definition holds_any (a : any_case) : bool :=
+  match a with
+  | AMc c => holds_mc c | ADur c => holds_dur c | ATab c => holds_table c | ARs c => holds_resample c
+  | AOsc c => holds_osc c | ABad _ => false
+  end.
+Definition corr_hist (h : list any_case) : bool := forallb corr_any h.
+Definition holds_hist (h : list any_case) : bool := forallb holds_any h.
